@@ -37,8 +37,15 @@ type step struct {
 func shortStr(r *rng.R) string {
 	alpha := []string{"a", "b", "z", " ", "\"", "\\", "\n", "\x01", "é", "\xff", "😀", "<"}
 	n := r.Intn(10)
+	if r.Chance(1, 5) {
+		n = 33 + r.Intn(60) // beyond the 32-byte stack buffer the compiler uses for small string conversions
+	}
 	var sb strings.Builder
 	for i := 0; i < n; i++ {
+		if n > 12 && !r.Chance(1, 8) {
+			sb.WriteByte(byte('a' + r.Intn(26)))
+			continue
+		}
 		sb.WriteString(alpha[r.Intn(len(alpha))])
 	}
 	return sb.String()
